@@ -10,5 +10,7 @@ package externaltoc
 //@ func layerConvert$1
 //@   props C19
 //@   concurrent
-//@   requires layerConvertFunc != nil
+//@   requires layerConvertFunc != nil && esgzDigest2TOC != nil
 //@   assume after "cf := layerConvertFunc(c)" : cf != nil
+// the TOC recorded for this call's layer comes from a compressor created by this very call (never shared between layers)
+//@   assert[C19] before "dgst, size, err := writeTOCTo(ctx, c, cs)" : fresh(c)
